@@ -33,7 +33,8 @@ class Space:
     """One exploration space: ``fn(g)`` is the harness (run once per path)."""
 
     def __init__(self, name, fn, bounds, depth=6, tiers=("quick", "thorough"), outside=None,
-                 nproc=None, goals=()):
+                 nproc=None, goals=(), preset=None):
+        self.preset = preset
         self.name = name
         self.fn = fn
         self.bounds = bounds
@@ -216,6 +217,10 @@ def _jsonable(x, depth=0):
 
 
 def _explore_unit(space, fixed, max_depth=None, max_paths=None, stop_on_violation=False, scratch=None, preset=None):
+    if preset is None:
+        preset = space.preset
+    elif space.preset:
+        preset = dict(space.preset, **preset)
     g = Engine(fixed=fixed, preset=preset)
     out = {"goals": collections.Counter(), "violations": [], "samples": [], "nontrivial": 0,
            "keys": set(), "inconclusive": [], "frontier": [], "exhausted": False}
@@ -297,6 +302,85 @@ def _work(unit):
         return ("error", unit[:2], "harness error: %s\n%s" % (ex, traceback.format_exc(limit=12)))
 
 
+def _worker_loop(wid, tasks, results, per_child):
+    done = 0
+    while done < per_child:
+        item = tasks.get()
+        if item is None:
+            break
+        idx, unit = item
+        results.put(("start", wid, idx, None))
+        try:
+            r = _work(unit)
+        except BaseException as ex:      # never let a worker die silently
+            r = ("error", unit[:2], "worker exception: %r" % ex)
+        results.put(("done", wid, idx, r))
+        done += 1
+    results.put(("bye", wid, None, None))
+
+
+def run_pool(units, nproc, per_child=40):
+    """Fork-based worker pool that survives (and reports) worker deaths."""
+    import queue as _q
+    ctx = mp.get_context("fork")
+    tasks = ctx.Queue()
+    results = ctx.Queue()
+    for i, u in enumerate(units):
+        tasks.put((i, u))
+    remaining = set(range(len(units)))
+    workers = {}
+    current = {}
+    nextw = [0]
+
+    def spawn():
+        wid = nextw[0]
+        nextw[0] += 1
+        p = ctx.Process(target=_worker_loop, args=(wid, tasks, results, per_child), daemon=True)
+        p.start()
+        workers[wid] = p
+
+    for _ in range(nproc):
+        spawn()
+    try:
+        while remaining:
+            try:
+                kind, wid, idx, r = results.get(timeout=1.0)
+            except _q.Empty:
+                for wid, p in list(workers.items()):
+                    if not p.is_alive():
+                        del workers[wid]
+                        idx = current.pop(wid, None)
+                        if idx is not None and idx in remaining:
+                            remaining.discard(idx)
+                            yield ("error", units[idx][:2], "worker died (exit code %s) while running this unit" % p.exitcode)
+                        if remaining:
+                            spawn()
+                if not workers and remaining:
+                    for _ in range(min(nproc, len(remaining))):
+                        spawn()
+                continue
+            if kind == "start":
+                current[wid] = idx
+            elif kind == "done":
+                current.pop(wid, None)
+                if idx in remaining:
+                    remaining.discard(idx)
+                    yield r
+            elif kind == "bye":
+                p = workers.pop(wid, None)
+                if p is not None:
+                    p.join(timeout=5)
+                if remaining and len(workers) < nproc:
+                    spawn()
+    finally:
+        for _ in workers:
+            tasks.put(None)
+        for p in workers.values():
+            p.join(timeout=2)
+            if p.is_alive():
+                p.terminate()
+
+
 # ------------------------------------------------------------------ functions-encoded probe
 
 def _functions_executed(space, max_paths=3):
@@ -308,8 +392,7 @@ def _functions_executed(space, max_paths=3):
             if mod.startswith("conductor"):
                 seen.add(mod + "." + frame.f_code.co_qualname)
 
-    g = Engine()
-    import threading
+    g = Engine(preset=space.preset)
     sys.setprofile(prof)
     try:
         g.explore(space.fn, None, max_paths=max_paths)
@@ -407,24 +490,21 @@ def main(argv=None):
         # 2. shards, canaries and lemmas over the worker pool
         per_space_paths = collections.Counter()
         if units:
-            ctx = mp.get_context("fork")
-            nproc = max(1, min(args.nproc, len(units)))
-            with ctx.Pool(nproc, maxtasksperchild=40) as pool:
-                for res in pool.imap_unordered(_work, units, chunksize=1):
-                    kind = res[0]
-                    if kind == "shard":
-                        _, si, r = res
-                        _merge(r, totals, goals, violations, samples, problems, keys)
-                        nontrivial += r["nontrivial"]
-                        per_space_paths[si] += r["stats"]["paths"]
-                        if not r["exhausted"]:
-                            space_reports[si]["exhaustive"] = False
-                    elif kind == "canary":
-                        canary_reports.append(res[2])
-                    elif kind == "lemma":
-                        lemma_reports.append(dict(res[2], name=lemmas[res[1]].name, bounds=lemmas[res[1]].bounds))
-                    else:
-                        problems.append("%s: %s" % (res[1], res[2]))
+            for res in run_pool(units, max(1, min(args.nproc, len(units)))):
+                kind = res[0]
+                if kind == "shard":
+                    _, si, r = res
+                    _merge(r, totals, goals, violations, samples, problems, keys)
+                    nontrivial += r["nontrivial"]
+                    per_space_paths[si] += r["stats"]["paths"]
+                    if not r["exhausted"]:
+                        space_reports[si]["exhaustive"] = False
+                elif kind == "canary":
+                    canary_reports.append(res[2])
+                elif kind == "lemma":
+                    lemma_reports.append(dict(res[2], name=lemmas[res[1]].name, bounds=lemmas[res[1]].bounds))
+                else:
+                    problems.append("%s: %s" % (res[1], res[2]))
         for si, rep in enumerate(space_reports):
             rep["paths"] = rep.pop("_paths0") + per_space_paths[si]
     finally:
@@ -469,7 +549,8 @@ def main(argv=None):
         if not v.get("replayed"):
             ok, info = concrete_replay(mod, v)
             if not ok:
-                problems.append("counterexample for %s did not reproduce concretely: %s" % (sig, info))
+                problems.append("counterexample for %s did not reproduce concretely: %s | symbolic detail: %s | values: %s" % (
+                    sig, info, v["detail"][:600], {k: x for k, x in v["values"].items() if x not in (False, 0)}))
                 continue
             v["replay_info"] = info
         h = hashlib.sha256(json.dumps([pid, sig, v["values"]], sort_keys=True, default=str).encode()).hexdigest()[:10]
@@ -571,7 +652,7 @@ def concrete_replay(mod, v):
     old = hrun.SCRATCH_BASE
     hrun.SCRATCH_BASE = scratch
     try:
-        res, viol = ConcreteEngine(v["values"]).run(sp.fn)
+        res, viol = ConcreteEngine(dict(v["values"], **(sp.preset or {}))).run(sp.fn)
         if viol is None:
             return False, "concrete run passed"
         if viol.sig != v["sig"]:
